@@ -298,11 +298,14 @@ def _enum_cases(ch):
 
 
 @st.composite
-def _graph_json(draw, pool_triples):
-    n = draw(st.integers(0, 6))
+def _graph_json(draw, pool_triples, big=False):
+    n = draw(st.integers(0, 6)) if not big else draw(st.integers(20, len(pool_triples)))
     ts = []
     for t in fy(draw, pool_triples)[:n]:
         ts.append(list(t))
+    if big and draw(st.booleans()):
+        # a duplicated triple in the graph (difference must remove every occurrence)
+        ts.insert(draw(st.integers(0, len(ts))), list(ts[draw(st.integers(0, len(ts) - 1))]))
     epi = []
     for t in ts:
         if draw(st.integers(0, 2)) == 0:
@@ -316,6 +319,10 @@ def _graph_json(draw, pool_triples):
 
 POOL_TRIPLES = [['a', ':instance', 'A'], ['b', ':instance', 'B'], ['c', ':instance', None], ['a', ':r', 'b'], ['b', ':r', 'c'], ['c', ':r', 'a'],
                 ['a', ':s', 'x'], ['b', ':s', 1], ['a', ':r-of', 'c'], ['c', ':s', '"q"'], ['a', ':instance', 'b'], ['b', ':t', 'a']]
+
+
+BIG_POOL = POOL_TRIPLES + [['n%d' % i, ':instance', 'c%d' % (i % 3)] for i in range(14)] + [['n%d' % i, ':r', 'n%d' % ((i * 5 + 1) % 14)] for i in range(14)] + \
+    [['n%d' % i, ':s', 'v%d' % i] for i in range(14)] + [['a', ':t', 'n%d' % i] for i in range(6)]
 
 
 @st.composite
@@ -335,7 +342,8 @@ def _random_q(draw):
 
 @st.composite
 def _random_hist(draw):
-    pool = [draw(_graph_json(POOL_TRIPLES)) for _ in range(3)]
+    big = draw(st.integers(0, 3)) == 0
+    pool = [draw(_graph_json(BIG_POOL if big else POOL_TRIPLES, big=big and i == 0)) for i in range(3)]
     ops = []
     for _ in range(draw(st.integers(1, 8))):
         k = draw(st.sampled_from(['or', 'sub', 'ior', 'isub', 'top', 'query', 'isub', 'ior']))
@@ -347,6 +355,28 @@ def _random_hist(draw):
             ops.append([k, draw(st.integers(0, 2))])
         else:
             ops.append([k, draw(st.integers(0, 2)), draw(st.integers(0, 2))])
+    if big and pool[0]['triples']:
+        ts0 = pool[0]['triples']
+        mode = draw(st.integers(0, 2))
+        if mode == 0:
+            # subtract exactly a triple that occurs (possibly twice) in the big graph
+            dups = [t for t in ts0 if ts0.count(t) > 1] or ts0
+            pool[1] = {'triples': [list(dups[draw(st.integers(0, len(dups) - 1))])], 'top': None, 'epi': [], 'meta': {}}
+            ops.insert(draw(st.integers(0, len(ops))), [draw(st.sampled_from(['isub', 'sub'])), 0, 1] + ([draw(st.integers(0, 2))] if False else []))
+            ops = [o if o[0] != 'sub' or len(o) == 4 else o + [2] for o in ops]
+        elif mode == 1:
+            # replace all triples of one source by as many triples of a new source, with queries around it
+            srcs = sorted({t[0] for t in ts0})
+            v = srcs[draw(st.integers(0, len(srcs) - 1))]
+            mine = []
+            for t in ts0:
+                if t[0] == v and t not in mine:
+                    mine.append(list(t))
+            pool[1] = {'triples': mine, 'top': None, 'epi': [], 'meta': {}}
+            fresh = [['zz', ':instance', 'Z'], ['zz', ':r', 'a'], ['zz', ':s', 'w'], ['zz', ':t', 'b'], ['zz', ':u', 1], ['zz', ':v', 'n1'], ['zz', ':w', 'n2']]
+            nrem = sum(1 for t in ts0 if t[0] == v)
+            pool[2] = {'triples': fresh[:min(nrem, len(fresh))], 'top': None, 'epi': [], 'meta': {}}
+            ops = ops[:2] + [['query', 0], ['isub', 0, 1], ['ior', 0, 2], ['query', 0]] + ops[2:]
     if draw(st.integers(0, 2)) == 0:
         # query / mutate twice / query: derived state must follow the triples even when their number comes back to what it was
         i, j, k2 = draw(st.integers(0, 2)), draw(st.integers(0, 2)), draw(st.integers(0, 2))
